@@ -295,6 +295,11 @@ func c01Exec(c fw.Case) *fw.Result {
 			o.ZeroP = 0.3 // present-but-zero values of optional parts
 		}
 		f := pbfw.GenFile(r, o)
+		if c.Int("profile") == 4 {
+			// unusual-but-valid values: ids zero / negative / huge / repeated / unsorted,
+			// metadata at the ends of their types, very long strings and lists, duplicate keys
+			pbfw.Wilden(r, f, 0.25)
+		}
 		if c.Int("noheader") == 1 {
 			f.Header = nil
 		}
@@ -403,6 +408,9 @@ func c01Cases(tier string, seed uint64) []fw.Case {
 func c01Profile(i int) int64 {
 	if i%40 == 17 {
 		return 3 // a few real-extract-sized files
+	}
+	if i%5 == 4 {
+		return 4 // unusual-but-valid values
 	}
 	return int64(i % 5 % 3)
 }
